@@ -138,6 +138,8 @@ def check_hist(net, spec, depth, res):
     vio = []
     ex = Explorer(net, lambda n, s: full_ops(n, s), None, max_states=300)
     hs = ex.run(depth=depth)
+    if ex.capped:
+        res["caps"].append({"net": repr(net)[:80], "cap": "max_states"})
     res["states"] += len(ex.states)
     for h in hs:
         base = replay_hist(net, h)
